@@ -157,9 +157,10 @@ def canon_tranp(n):
 
 
 def _type_tokens(text: str) -> str:
-	"""Annotations are compared as their sequence of name / number / string-content / ellipsis tokens."""
+	"""Annotations are compared as their sequence of name / number / string-content tokens (tranp joins type tokens with '.', so an
+	ellipsis inside `Callable[..., X]` cannot be told from the separators and is not compared)."""
 	import re
-	return '.'.join(t for t in re.findall(r'[A-Za-z_][A-Za-z_0-9]*|\d+|\.\.\.', text) if t not in ('None', 'Literal', 'Annotated'))  # typed_none / "Literal" / "Annotated" are anonymous in grammar.lark
+	return '.'.join(t for t in re.findall(r'[A-Za-z_][A-Za-z_0-9]*|\d+', text) if t not in ('None', 'Literal', 'Annotated'))  # typed_none / "Literal" / "Annotated" are anonymous in grammar.lark
 
 
 def _generic(v):
@@ -449,7 +450,7 @@ class PyCanon:
 		decos = [self.seg(d.func if isinstance(d, ast.Call) else d) for d in f.decorator_list]
 		if ctx == 'class':
 			# a @staticmethod takes no receiver: a plain function in the class namespace (tranp has no separate class for it)
-			kind = 'ClassMethod' if decos[:1] == ['classmethod'] else ('Constructor' if f.name == '__init__' else ('Function' if 'staticmethod' in decos else 'Method'))
+			kind = 'ClassMethod' if 'classmethod' in decos else ('Constructor' if f.name == '__init__' else ('Function' if 'staticmethod' in decos else 'Method'))
 		elif ctx == 'function':
 			kind = 'Closure'
 		else:
